@@ -17,6 +17,8 @@
 //                       valid prefixes; oracle is a strict three-valued reference recogniser (VALID /
 //                       INVALID / UNSPECIFIED)
 //
+//   S  substitutions  : every byte value at every position of ~45 canonical texts (each type, subtype, suffix name)
+//
 // Every text is evaluated through fromString, through fromRaw on an exact-size heap buffer without a
 // terminating NUL (an over-read is an ASan report) and through fromRaw inside a larger buffer with each
 // following-byte class (digit, '.', letter) right after the given length: the result must not depend on it.
@@ -297,6 +299,43 @@ static void evaluate(const std::string& text, const Want& w, int mustAccept, con
     {
         if (a.text != text)
             ctx.violation("c18:tostring-differs", djson(text, a));
+        // whatever else is debatable about an accepted text: a type / subtype / suffix from the library's tables may
+        // only be reported when the text really spells that name (in any letter case)
+        {
+            auto lower = [](std::string x) {
+                for (auto& c : x)
+                    if (c >= 'A' && c <= 'Z')
+                        c = char(c + 32);
+                return x;
+            };
+            size_t slash      = text.find('/');
+            std::string typeT = lower(text.substr(0, slash));
+            std::string rest  = slash == std::string::npos ? std::string() : text.substr(slash + 1);
+            rest              = lower(rest.substr(0, rest.find(';')));
+            auto endsName     = [&](size_t at) { return at >= rest.size() || rest[at] == ' ' || rest[at] == '\t'; }; // blanks / parameters follow
+            for (int k = 0; k < kNTypes; ++k)
+                if ((int)kTypes[k].t == a.top && typeT != kTypes[k].s)
+                    ctx.violation("c18:known-name-reported-for-other-text:type", djson(text, a, ",\"reported\":" + vr::jstr(kTypes[k].s)));
+            for (int k = 0; k < kNKnownSubs; ++k)
+                if ((int)kSubs[k].t == a.sub)
+                {
+                    std::string n = kSubs[k].s;
+                    if (rest.compare(0, n.size(), n) != 0 || !(endsName(n.size()) || rest[n.size()] == '+'))
+                        ctx.violation("c18:known-name-reported-for-other-text:subtype", djson(text, a, ",\"reported\":" + vr::jstr(n)));
+                }
+            if (a.sub == (int)Subtype::Vendor && rest.compare(0, 4, "vnd.") != 0)
+                ctx.violation("c18:known-name-reported-for-other-text:subtype", djson(text, a, ",\"reported\":\"vnd.\""));
+            for (int k = 1; k < kNKnownSufs; ++k)
+                if ((int)kSufs[k].t == a.suffix)
+                {
+                    std::string n = std::string("+") + kSufs[k].s;
+                    bool spelled  = false;
+                    for (size_t at = rest.find(n); at != std::string::npos && !spelled; at = rest.find(n, at + 1))
+                        spelled = endsName(at + n.size());
+                    if (!spelled)
+                        ctx.violation("c18:known-name-reported-for-other-text:suffix", djson(text, a, ",\"reported\":" + vr::jstr(n)));
+                }
+        }
         if (mustAccept == 0)
         {
             ctx.outcome(std::string(sec) + " accepted though the strict reference calls it invalid (lenient)");
@@ -686,6 +725,40 @@ static void mutated(const std::string& text, vr::Ctx& ctx)
     ctx.nontrivial(vr::hash_str(text, 11));
 }
 
+// ---- S: single-byte substitutions of canonical texts (every byte value at every position) ---------------------------
+static std::vector<std::string> gSTexts;
+static std::vector<std::pair<int, int>> gSIndex; // (text, position), one case each = 255 inputs
+static void init_subst()
+{
+    for (int k = 0; k < kNTypes; ++k)
+        gSTexts.push_back(std::string(kTypes[k].s) + "/plain");
+    for (int k = 0; k < kNSubs; ++k)
+        gSTexts.push_back(std::string("application/") + kSubs[k].s);
+    for (int k = 1; k < kNSufs; ++k)
+        gSTexts.push_back(std::string("application/x-foo+") + kSufs[k].s);
+    gSTexts.push_back("text/html; q=0.5; charset=utf-8");
+    gSTexts.push_back("*/*");
+    for (size_t t = 0; t < gSTexts.size(); ++t)
+        for (size_t p = 0; p < gSTexts[t].size(); ++p)
+            gSIndex.push_back({ (int)t, (int)p });
+}
+static void caseS(uint64_t i, vr::Ctx& ctx)
+{
+    const std::string& base = gSTexts[gSIndex[i].first];
+    int pos                 = gSIndex[i].second;
+    for (int b = 0; b < 256; ++b)
+    {
+        if ((char)b == base[pos])
+            continue;
+        std::string t = base;
+        t[pos]        = (char)b;
+        Want w;
+        int r = reference(t, w);
+        evaluate(t, w, r, r == 1 ? "substituted(ref valid)" : r == 0 ? "substituted(ref invalid)" : "substituted(ref unspecified)", ctx, false);
+        ctx.nontrivial(vr::hash_str(t, 13));
+    }
+}
+
 static void caseM(uint64_t i, vr::Ctx& ctx)
 {
     uint64_t blocksFull = (nMfull + kBlock - 1) / kBlock, blocksPre = (nMpre + kBlock - 1) / kBlock;
@@ -740,7 +813,10 @@ int main(int argc, char** argv)
     bQ     = (nQ + kBlock - 1) / kBlock;
     bB     = (nB + kBlock - 1) / kBlock;
     bM     = (nMfull + kBlock - 1) / kBlock + (uint64_t)kNMPrefix * ((nMpre + kBlock - 1) / kBlock);
-    uint64_t total = bP + bQ + bB + bM;
+    init_subst();
+    static uint64_t bS;
+    bS             = gSIndex.size();
+    uint64_t total = bP + bQ + bB + bM + bS;
     return vr::run(opt, total, [](uint64_t idx, vr::Ctx& ctx) {
         ctx.count("executions", 1);
         auto block = [&](uint64_t blk, uint64_t n, void (*fn)(uint64_t, vr::Ctx&)) {
@@ -753,8 +829,10 @@ int main(int argc, char** argv)
             block(idx - bP, nQ, caseQ);
         else if (idx < bP + bQ + bB)
             block(idx - bP - bQ, nB, caseB);
-        else
+        else if (idx < bP + bQ + bB + bM)
             caseM(idx - bP - bQ - bB, ctx);
+        else
+            caseS(idx - bP - bQ - bB - bM, ctx);
         if (idx % 97 == 0)
             ctx.sample("{\"case\":" + std::to_string(idx) + ",\"last_input\":" + vr::jstr(ctx.shm->slots[ctx.worker].note) + "}");
     });
